@@ -7,19 +7,29 @@ from translator import extract
 PROP = 'C28'
 
 
-def impl_nodes_used(n, outcomes):
+FAILURE_KINDS = ('RpcError', 'ConnectionError', 'ReadTimeout', 'RuntimeError')
+
+
+def impl_nodes_used(n, outcomes, kinds=None):
+    """outcomes: 1 = the node answers, 0 = the request fails; kinds (same length, optional): which exception a failing request
+    raises — the property says "regardless of failures", so the way a request fails must not matter"""
+    import requests
     from pytezos.rpc.node import RpcError, RpcMultiNode
+
+    excs = [lambda: RpcError('boom'), lambda: requests.exceptions.ConnectionError('refused'), lambda: requests.exceptions.ReadTimeout('slow'),
+            lambda: RuntimeError('bug')]
 
     cli = RpcMultiNode([f'http://node{i}' for i in range(n)])
     used = []
-    it = iter(outcomes)
+    it = iter(zip(outcomes, kinds or [0] * len(outcomes)))
 
     def mk(i):
         def request(method, path, **kwargs):
             used.append(i)
-            if next(it):
+            ok, kind = next(it)
+            if ok:
                 return 'ok'
-            raise RpcError('boom')
+            raise excs[kind]()
         return request
 
     for i, node in enumerate(cli.nodes):
@@ -27,14 +37,15 @@ def impl_nodes_used(n, outcomes):
     for _ in outcomes:
         try:
             cli.request('GET', 'x')
-        except RpcError:
+        except Exception:
             pass
     return used
 
 
 def run(ctx):
     ctx.prepare_lean(extract.generate(PROP))
-    ctx.extra['rule'] = ('node counts 1..4 x success/error sequences (exhaustive up to a length, then random longer ones); '
+    ctx.extra['rule'] = ('node counts 1..4 x success/error sequences (exhaustive up to a length, then random longer ones); failing requests raise RpcError, '
+                         'requests ConnectionError / ReadTimeout or RuntimeError (drawn per request in two thirds of the cases); '
                          'non-trivial = contains at least one error and n >= 2')
     max_len = 7 if ctx.tier == 'quick' else 11
     cases = []
@@ -51,8 +62,13 @@ def run(ctx):
     lines = [' '.join(map(str, [n, *os_])) for n, os_ in cases]
     model = ctx.model(lines)
     for idx, (n, os_) in enumerate(cases):
-        used = impl_nodes_used(n, os_)
-        ctx.case({'n': n, 'outcomes': os_}, nontrivial=(0 in os_ and n >= 2))
+        # the failure kind of every failing request: all RpcError for every third case, otherwise drawn per request
+        kinds = [0] * len(os_) if idx % 3 == 0 else [ctx.rng.randrange(len(FAILURE_KINDS)) for _ in os_]
+        used = impl_nodes_used(n, os_, kinds)
+        ctx.case({'n': n, 'outcomes': os_, 'failure_kinds': [FAILURE_KINDS[k] for o, k in zip(os_, kinds) if not o]}, nontrivial=(0 in os_ and n >= 2))
+        for o, k in zip(os_, kinds):
+            if not o:
+                ctx.count('failure_kind', FAILURE_KINDS[k])
         ctx.count('n', n)
         ctx.count('errors', min(os_.count(0), 5))
         want = [i % n for i in range(len(os_))]
@@ -61,8 +77,11 @@ def run(ctx):
             k = next(i for i, (a, b) in enumerate(zip(used, want)) if a != b) + 1
             first_err = os_.index(0) if 0 in os_[:k] else -1
             key = 'rotation-sticks-after-error' if first_err >= 0 and used[:first_err + 1] == want[:first_err + 1] else f'n={n} outcomes={os_[:k]}'
-            ctx.violation(key, f'n={n} outcomes={os_[:k]}: nodes used {used[:k]} expected {want[:k]}',
-                          {'n': n, 'outcomes': os_[:k], 'used': used[:k], 'expected': want[:k]})
+            fk = [FAILURE_KINDS[kk] if not o else 'ok' for o, kk in zip(os_[:k], kinds[:k])]
+            if any(kk for o, kk in zip(os_[:k], kinds[:k]) if not o):
+                key += ' failures=' + ','.join(fk)
+            ctx.violation(key, f'n={n} outcomes={fk}: nodes used {used[:k]} expected {want[:k]}',
+                          {'n': n, 'outcomes': os_[:k], 'failure_kinds': fk, 'used': used[:k], 'expected': want[:k]})
         if model is not None:
             got = ' '.join(map(str, used))
             if got != model[idx]:
